@@ -46,15 +46,19 @@ type C05 struct {
 	Pairs   [][2]string
 	Timeout int64
 	Tokens  []TokenRow
+	// Extra: a bonded validator whose share is below the oracle's 16-bit power resolution (normalised
+	// power 0) and a registered but unbonded validator; both may send oracle claims
+	Extra []hub.Validator
 }
 
 type c05Worker struct{ in *hub.Instance }
 
 func NewC05(tier string) *C05 {
-	c := &C05{Powers: []int64{10, 10, 10}, User: hub.User("u1"), Timeout: 3600}
+	c := &C05{Powers: []int64{30000, 30000, 30000}, User: hub.User("u1"), Timeout: 3600}
 	for i := range c.Powers {
 		c.Vals = append(c.Vals, hub.NewValidator(string(rune('A'+i))))
 	}
+	c.Extra = []hub.Validator{hub.NewValidator("tiny"), hub.NewValidator("unbonded")}
 	c.Tokens = []TokenRow{
 		{"hub", "ethereum", EthHub, 18, 100},
 		{"hub", "bsc", BscHub, 18, 100},
@@ -64,7 +68,7 @@ func NewC05(tier string) *C05 {
 	}
 	c.Items = []string{"empty", "send1", "send2", "send65", "send70", "sendM70", "reqbatch", "cancel1",
 		"dep_ok", "dep_negfee", "dep_huge", "dep_huge_dec6", "dep_huge_dec24", "dep_zero", "dep_unknown_token", "dep_unknown_chain", "dep_to_hub_short_recv", "dep_negfee_hub",
-		"exec_first", "exec_first_hugefee", "exec_unknown", "valset_event", "logic_event", "prices", "prices_partial", "holders", "observe_far"}
+		"exec_first", "exec_first_hugefee", "exec_unknown", "valset_event", "logic_event", "prices", "prices_partial", "holders", "observe_far", "prices_extra_name_by_powerless", "holders_by_powerless"}
 	c.Pairs = [][2]string{{"send2", "send70"}, {"send1", "send65"}, {"dep_ok", "send70"}, {"observe_far", "send2"}, {"prices", "exec_first"}, {"reqbatch", "send70"}, {"send70", "reqbatch"}}
 	if tier == "thorough" {
 		c.Items = append(c.Items, "send66", "send101", "send1100", "cancel2")
@@ -77,7 +81,7 @@ func (c *C05) ID() string { return "C05" }
 
 func (c *C05) genesis() hub.Genesis {
 	bal := sdk.NewCoins(sdk.NewCoin("hub", sdk.NewIntFromBigInt(new(big.Int).Exp(big.NewInt(10), big.NewInt(30), nil))), sdk.NewCoin("usdt", sdk.NewIntFromBigInt(new(big.Int).Exp(big.NewInt(10), big.NewInt(30), nil))))
-	g := StdGenesis(c.Vals, c.Powers, []sdk.AccAddress{c.User}, bal)
+	g := StdGenesis(append(append([]hub.Validator{}, c.Vals...), c.Extra...), append(append([]int64{}, c.Powers...), 1, 0), []sdk.AccAddress{c.User}, bal)
 	var infos []*mhubtypes.TokenInfo
 	for i, t := range c.Tokens {
 		infos = append(infos, &mhubtypes.TokenInfo{Id: uint64(i + 1), Denom: t.Denom, ChainId: t.Chain, ExternalTokenId: t.ExtID,
@@ -414,6 +418,29 @@ func (c *C05) item(in *hub.Instance, ns *c05State, it string, st *engine.Step) {
 			}
 			c.txOutcome(in.DeliverMsg(&oracletypes.MsgPriceClaim{Epoch: epoch, Prices: &oracletypes.Prices{List: list}, Orchestrator: v.Acc.String()}), st)
 		}
+	case "prices_extra_name_by_powerless":
+		// a quorum reports the usual prices; the two validators without oracle power add a name nobody else reports
+		epoch := in.Oracle.GetCurrentEpoch(in.Ctx())
+		names := []string{"eth", "ethereum/gas", "bnb", "bsc/gas", "hub", "usdt"}
+		for vi, v := range append(append([]hub.Validator{}, c.Vals...), c.Extra...) {
+			var list []*oracletypes.Price
+			for i, n := range names {
+				list = append(list, &oracletypes.Price{Name: n, Value: sdk.NewDec(int64(100 + i + vi))})
+			}
+			if vi >= len(c.Vals) {
+				list = append(list, &oracletypes.Price{Name: "doge", Value: sdk.NewDec(7)})
+			}
+			c.txOutcome(in.DeliverMsg(&oracletypes.MsgPriceClaim{Epoch: epoch, Prices: &oracletypes.Prices{List: list}, Orchestrator: v.Acc.String()}), st)
+		}
+	case "holders_by_powerless":
+		epoch := in.Oracle.GetCurrentEpoch(in.Ctx())
+		for vi, v := range append(append([]hub.Validator{}, c.Vals...), c.Extra...) {
+			l := []*oracletypes.Holder{{Address: hub.HexAddr("x"), Value: sdk.NewInt(5)}}
+			if vi >= len(c.Vals) {
+				l = []*oracletypes.Holder{{Address: hub.HexAddr("y"), Value: sdk.NewInt(9)}}
+			}
+			c.txOutcome(in.DeliverMsg(&oracletypes.MsgHoldersClaim{Epoch: epoch, Holders: &oracletypes.Holders{List: l}, Orchestrator: v.Acc.String()}), st)
+		}
 	case "holders":
 		epoch := in.Oracle.GetCurrentEpoch(in.Ctx())
 		for _, v := range c.Vals {
@@ -474,7 +501,7 @@ func init() {
 					fmt.Sprintf("block items %v, pairs %v, block time steps {5 s, timeout+1 s}", sc.Items, sc.Pairs),
 					"hostile claims are voted by all three validators, i.e. they model what every honest orchestrator/connector would report for a hostile external transaction, or a >=66% coalition",
 					"a transition that exceeds the horizon is a violation only with the structural deadlock signature in two stack dumps; otherwise it is reported as pruned (exhaustive=false), never as a violation",
-					"bonded validators with power 0 and a zero total power are not generated (x/staking never bonds a validator with zero power)",
+					"validators A,B,C hold 30000 each; a fourth bonded validator holds 1 (below the oracle's 16-bit power resolution: normalised oracle power 0) and a fifth is registered but unbonded; a zero total power is not generated (x/staking never bonds a validator with zero power)",
 				})
 			},
 			Replay: func(tier string, seed int, ops []engine.Op) []engine.Violation {
